@@ -8,6 +8,7 @@ package interp
 import (
 	"fmt"
 	"go/types"
+	"maps"
 	"os"
 	"sort"
 	"strings"
@@ -36,17 +37,17 @@ type alt struct {
 
 func (a *alt) clone() *alt {
 	n := &alt{atoms: a.atoms, impure: a.impure}
-	n.cells = make(map[int32]cellVal, len(a.cells)+4)
-	for k, v := range a.cells {
-		n.cells[k] = v
+	n.cells = maps.Clone(a.cells)
+	if n.cells == nil {
+		n.cells = map[int32]cellVal{}
 	}
-	n.heap = make(map[term.ID]term.ID, len(a.heap)+2)
-	for k, v := range a.heap {
-		n.heap[k] = v
+	n.heap = maps.Clone(a.heap)
+	if n.heap == nil {
+		n.heap = map[term.ID]term.ID{}
 	}
-	n.frame = make(map[ssa.Value]term.ID, len(a.frame)+8)
-	for k, v := range a.frame {
-		n.frame[k] = v
+	n.frame = maps.Clone(a.frame)
+	if n.frame == nil {
+		n.frame = map[ssa.Value]term.ID{}
 	}
 	n.defers = append([]*ssa.Defer(nil), a.defers...)
 	return n
@@ -406,7 +407,7 @@ func (act *activation) fixpoint(start *alt) *result {
 					// plain intersection within a group, and with the group's
 					// previous state: order-independent and shrinking, so the
 					// iteration must reach a fixpoint
-					act.e.plainMerge = true
+					act.e.plainMerge = passNo >= 8 && passNo != 99
 					oldByGroup := map[string]*alt{}
 					for _, x := range inState[b] {
 						oldByGroup[groupKeyOf(act.e, b, x)] = x
